@@ -27,7 +27,9 @@ vars == <<stateVars, last>>
 Init == /\ bal = [a \in Accts |-> Start] /\ del = [a \in Accts |-> [x \in V |-> 0]] /\ unb = [a \in Accts |-> 0] /\ redel = [a \in Accts |-> {}]
         /\ voted = [a \in Accts |-> 0] /\ active = TRUE /\ burned = 0 /\ slashed = FALSE
         /\ last = [act |-> "Init", res |-> "ok"]
-Actor(path) == CASE path = "direct" -> "eoa" [] path = "forward" -> "fwd" [] OTHER -> "none"
+(* mixed: a contract makes the genuine call for itself (it is the actor) and then emits, from its own address, a look-alike *)
+(* of the same event naming the externally owned account: one real event and one look-alike in the same receipt          *)
+Actor(path) == CASE path = "direct" -> "eoa" [] path = "forward" -> "fwd" [] path = "mixed" -> "mix" [] OTHER -> "none"
 NativeOK(a, op, v, n, o) ==
   CASE op = "delegate"   -> Target(v) \in V /\ n > 0 /\ bal[a] >= n
     [] op = "undelegate" -> Target(v) \in V /\ n > 0 /\ del[a][Target(v)] >= n
